@@ -938,7 +938,7 @@ def install(prog):
         if len(sl) == 0: return mk_none()
         return mk_some(sl.elem(0 if m.group(1) == 'first' else len(sl) - 1))
 
-    @M(r'core::slice::<impl \[.*\]>::to_vec|<\[.*\] as ToOwned>::to_owned|<Vec<.*> as From<&\[.*\]>>::from|<Vec<.*> as From<&mut \[.*\]>>::from')
+    @M(r'(?:core|std|alloc)::slice::<impl \[.*\]>::to_vec|<\[.*\] as ToOwned>::to_owned|<Vec<.*> as From<&\[.*\]>>::from|<Vec<.*> as From<&mut \[.*\]>>::from')
     def _(it, m, a):
         sl = as_slice(it, a[0])
         return [clone_val(it, sl.elem(i).get()) for i in range(len(sl))]
